@@ -111,7 +111,7 @@ Definition table : list entry := [
     ["_.EventManager"; "_.EventManager().EmitTypedEvent"; "_.ValAddress.String"] JLogOnly;   (* EndBlock events, in map order *)
   mk_entry "x/oracle/keeper" "Keeper.incrementAbstainsByOmission" 0 SynBuildMap [] JKeyed;  (* abstain_by_omission_deterministic *)
   mk_entry "x/oracle/keeper" "Keeper.incrementMissCounters" 0 SynEffect
-    ["_.Logger"; "_.Logger().Info"; "_.MissCounters.GetOr"; "_.MissCounters.Insert"; "_.ValAddress.String"] JKeyed;  (* incr_miss_deterministic *)
+    ["_.MissCounters.GetOr"; "_.MissCounters.Insert"; "_.ValAddress.String"] JKeyed;  (* incr_miss_deterministic *)
   mk_entry "x/oracle/keeper" "Keeper.rewardWinners" 0 SynEffect
     ["_.Add"; "_.MulDec"; "_.MulDec().TruncateDecimal"; "_.StakingKeeper.Validator"; "_.distrKeeper.AllocateTokensToValidator";
      "math.LegacyNewDec"; "math.LegacyNewDec().QuoInt64"; "sdk.NewDecCoinsFromCoins"] JKeyed;                      (* reward_winners_deterministic *)
